@@ -422,6 +422,11 @@ func (ua *unitAnalysis) conflicts(fns []*ssa.Function) []unitConflict {
 			for _, in := range b.Instrs {
 				switch x := in.(type) {
 				case *ssa.BinOp:
+					if x.Op == token.MUL {
+						if what, key, ok := ua.divBeforeMul(x); ok {
+							add(fn, x.Pos(), what, unit{}, unit{}, key)
+						}
+					}
 					switch x.Op {
 					case token.ADD, token.SUB, token.LSS, token.LEQ, token.GTR, token.GEQ, token.EQL, token.NEQ:
 						if !isNumeric(x.X.Type()) {
@@ -585,6 +590,7 @@ func unitsRuleByName(p *Program, r *Reporter, names ...string) {
 	}
 	if len(anchors) > 0 {
 		unitsRule(p, r, anchors...)
+		errDiscRule(p, r, anchors...)
 	}
 }
 
@@ -619,4 +625,51 @@ func staticReach(p *Program, starts ...*ssa.Function) map[*ssa.Function]bool {
 		}
 	}
 	return seen
+}
+
+// divBeforeMul: an integer unit conversion written as (a / d) * m with d and m different scale factors
+// (timescales, powers of ten): the remainder of the division is lost before the multiplication. The idiom
+// "floor to a multiple" (a / d * d) multiplies by the divisor itself and is not reported.
+func (ua *unitAnalysis) divBeforeMul(x *ssa.BinOp) (string, string, bool) {
+	isInt := func(t types.Type) bool {
+		b, ok := t.Underlying().(*types.Basic)
+		return ok && b.Info()&types.IsInteger != 0
+	}
+	if !isInt(x.Type()) {
+		return "", "", false
+	}
+	try := func(q, m ssa.Value) (string, string, bool) {
+		div, ok := stripConv(q).(*ssa.BinOp)
+		if !ok || div.Op != token.QUO || !isInt(div.Type()) {
+			return "", "", false
+		}
+		d := div.Y
+		if sameValue(stripConv(d), stripConv(m)) || exprKey(stripConv(d)) == exprKey(stripConv(m)) {
+			return "", "", false // floor to a multiple of d
+		}
+		scale := func(v ssa.Value) (string, bool) {
+			if c, ok := v.(*ssa.Const); ok {
+				if _, ok := pow10Of(c); ok {
+					return c.Value.String(), true
+				}
+				return "", false
+			}
+			if u := ua.unitOf(v); u.known && u == uRate {
+				return "a timescale", true
+			}
+			return "", false
+		}
+		ds, okd := scale(stripConv(d))
+		ms, okm := scale(stripConv(m))
+		if !okd || !okm {
+			return "", "", false
+		}
+		au := ua.unitOf(div.X)
+		return fmt.Sprintf("a value (%s) is divided by %s before it is multiplied by %s: the remainder of the integer division is lost (multiply first)", au, ds, ms),
+			"divmul:" + roleKey(div.X), true
+	}
+	if w, k, ok := try(x.X, x.Y); ok {
+		return w, k, ok
+	}
+	return try(x.Y, x.X)
 }
